@@ -161,6 +161,39 @@ CLAIMS.update({
     ),
 })
 
+CLAIMS.update({
+    'C04': (
+        'pattern-simulator table folding, polarity typestate, key-domain rule, users-index pairing, snapshot-before-mutation and shape rules',
+        'Structural clauses in a file that no test can import in this sandbox: the bit-parallel pattern simulator denotes the oracle function for every gate name and arity it accepts and rejects the rest; '
+        'a label read from outputs_negation_mapping (complement of an output) is only used to find or build a NOT (known finding F02); a label looked up in output_labels_mapping must be one of its keys (known finding F23); '
+        'hand-written re-pointing of users keeps the users index exact (known finding F03); the validation snapshot is a deep copy taken before the first mutation and validation raises iff the miter is satisfiable; '
+        'the replacement is searched with size - 1 gates in the requested basis over the don\'t-care model of exactly the non-trivial outputs, failures leave the circuit unchanged. '
+        'Not decided: cut filtering, don\'t-care extraction, splice correctness, truth-table equality and size non-increase in general.',
+        'DESIGN.md 4 C04',
+    ),
+    'C07': (
+        'gadget netlists folded against arithmetic specs, basis typestate and reachability, effect summaries, endianness and placeholder-coverage rules',
+        'Decides: the half/full adders (both bases), Stockmeyer block, MDFA and simplified MDFA satisfy their arithmetic specification for every input value; a Union[str, GenerationBasis] value is compared with enum members only after normalisation (however the basis is spelled); '
+        'on paths where the basis is AIG (XAIG) only AIG (XAIG) gate kinds are reachable, branches pruned and callees followed; generators touch the host circuit only through add_gate/emplace_gate (which refuse existing labels, C02), read-only queries and the output interface, new labels come from freshness loops; '
+        'no operand list is mutated in place; operands are reversed at entry and every returned number converted back under big_endian on every return path; placeholder-filled lists are completely overwritten before being returned (abstract execution over operand sizes). '
+        'Not decided: level bookkeeping, distinct levels, the sum identity of the composed circuits, gate-count bounds.',
+        'DESIGN.md 4 C07',
+    ),
+    'C08': (
+        'registry exhaustiveness/signature agreement, effect summaries, endianness rule',
+        'NARROW claim: the core of the statement (the returned bits decode to a*b or a^2, result widths, Karatsuba thresholds) is NOT decided. Decided: every MulMode/SquareMode member has a registered generator with the common signature and generate_* dispatches on it, forwarding big_endian; '
+        'multipliers and squarers only add fresh gates (add-only calls on the host, C02 refuses existing labels), never mutate their operand lists, reverse operands at entry and convert every returned product back under big_endian on every return path; placeholder tables do not leak on the loop-bounded paths.',
+        'DESIGN.md 4 C08',
+    ),
+    'C09': (
+        'gadget netlists folded against pointwise specs, guard-dominance rule for output marking, host-input rule, effect summaries, endianness rule',
+        'Decides: add_sub2/add_sub3 (a - b [- bal] = r - 2*borrow), add_if_then_else, and the elements of add_pairwise_xor / add_pairwise_if_then_else compute their pointwise definitions for every input value and mark outputs only on request; '
+        'every change of the host\'s outputs in a function with add_outputs is dominated by add_outputs; add_* functions never touch the inputs of the host (operands may be arbitrary gates) and only add fresh gates; operand lists are not mutated; endianness handled on every return path; placeholder lists fully overwritten. '
+        'Not decided: exactness of the subtraction chains, division, square root, equality gadget and plus-one carry chain (loop-built arithmetic).',
+        'DESIGN.md 4 C09',
+    ),
+})
+
 PENDING = 'check under construction in this session (see DESIGN.md section 4); not claimed until its rules run clean'
 
 ALL = [f'C{i:02d}' for i in range(1, 21)]
